@@ -42,6 +42,10 @@ def config(draw, kmax=4):
         h["nc_ibuf_size"] = str(draw(st.sampled_from([1, 64, 100000])))
     if G.chance(draw, 60):
         h["nc_in_place_swap"] = draw(st.sampled_from(["auto", "enable", "disable"]))
+    if G.chance(draw, 15):
+        # a header extent without slack and a wide gap in front of the record section: a redefinition moves the fixed
+        # variables while the record section may stay where it is
+        h.update({"nc_header_align_size": "4", "nc_var_align_size": "4", "nc_record_align_size": draw(st.sampled_from(["512", "4096"]))})
     for key in ("nc_hash_size_dim", "nc_hash_size_var", "nc_hash_size_gattr", "nc_hash_size_vattr"):
         if G.chance(draw, 25):
             h[key] = str(draw(st.sampled_from([1, 2, 7, 64])))
